@@ -20,7 +20,9 @@ hdr = ("### 8.4 Seeded defects (written by sub-agents that saw only a property's
        "`meta.json` records what was run.  'reported' = the property's quick check exits 1 on /repo + patch and names the rule(s) shown.\n"
        "Round 1 (ids 1-3 per property): one agent per property.  Round 2 (ids 4-6, twelve properties, run after 18 h of strengthening, agents told to avoid round-1 sites): "
        "column `at delivery` is the verdict of the checks AS THEY WERE when the seed arrived -- `missed` seeds are the ones that drove the rules named in the note; "
-       "`not-decided` seeds are still not reported (value-level questions outside static reach, recorded honestly).\n\n"
+       "`not-decided` seeds are still not reported (value-level questions outside static reach, recorded honestly).  "
+       "Round 3 (ids 7-9, twelve properties, agents told which mechanisms and sites rounds 1-2 had used and asked for different ones): same columns.  "
+       "Six older seeds whose patches no longer applied after later fix: commits were re-written by hand for HEAD (`ported` in meta.json).\n\n"
        "| seed | round | where | what it does | at delivery | verdict of the checks now | first report |\n|---|---|---|---|---|---|---|\n")
 txt = hdr + "\n".join(rows) + "\n"
 p = os.path.join(V, "DESIGN.md")
